@@ -253,3 +253,44 @@ M("C07", "M16-env-second-rebalance", (EN, "        self._process_nonlatent_event
 M("C07", "M17-quantity-live", (BR, "        return dict(self._holdings_quantity)", "        return self._holdings_quantity"), "S5.holdings_quantity-returns-copy")
 E("C07", "E1-context-from-locals", (BR, "        return Context(\n            nlv=self.net_liquidation_value(),", "        return Context(\n            nlv=self.net_liquidation_value(raise_if_broke=True),"))
 E("C07", "E2-reward-inline", (RW, "        nlv_last_rebalancing = env.broker.track_record[-1].context_pre.nlv\n        nlv_now = env.broker.net_liquidation_value()\n        return float(nlv_now - nlv_last_rebalancing)", "        broker = env.broker\n        before = broker.track_record[-1].context_pre.nlv\n        return float(broker.net_liquidation_value() - before)"))
+
+
+def R(prop, id, patch, rule=None):
+    """Regression: the reverse of a 'fix:' commit (the defect as it was found)."""
+    import os
+    CATALOGUE.append({"prop": prop, "id": f"{prop}/{id}", "patch": os.path.join(os.path.dirname(os.path.abspath(__file__)), "regressions", patch), "expect": "fire", "rule": rule})
+
+
+R("C01", "R-F1-liquidation-multiplier", "F1-C01.diff", "S6.value-liquidation")
+R("C05", "R-F1-liquidation-multiplier", "F1-C01.diff", "S6.value-liquidation")
+R("C04", "R-F3-clock-before-newdate", "F3-C04.diff", "S8.no-clock-move-before-dispatch")
+R("C04", "R-F4-history-latent-first", "F4-C04.diff", "S7.history-batch-ordered")
+R("C12", "R-F8-zero-lot", "F8-C12.diff", "S4.nonzero-into-trade")
+
+# ------------------------------------------------------------------ C04
+M("C04", "M1-latency-strict", (TM, "                if sec_since_timestep <= latency:", "                if sec_since_timestep < latency:"), "S5.latent-iff-within-latency")
+M("C04", "M2-both-appends", (TM, "                if sec_since_timestep <= latency:\n                    self._partition_latent[timestep].append(event)\n                else:\n                    self._partition_nonlatent[timestep].append(event)", "                if sec_since_timestep <= latency:\n                    self._partition_latent[timestep].append(event)\n                self._partition_nonlatent[timestep].append(event)"), "S2")
+M("C04", "M3-lt-compares-id", (EV, "        return self.time < other.time", "        return (self.time, id(self)) < (other.time, id(other))"), "S4.event-order-__lt__")
+M("C04", "M4-step-stamped-last-event", (EN, "        self.notify(EventStep(self.now(), self.broker.track_record, action))", "        self.notify(EventStep(self._last_event.time, self.broker.track_record, action))"), "S8.own-events-stamped-now")
+M("C04", "M5-env-clears-batch", (EN, "        self._events_latent = list()", "        self._events_latent.clear()"), "S2")
+M("C04", "M6-bisect-right", (TM, "                index = bisect.bisect_left(self.timesteps, event.time)", "                index = bisect.bisect_right(self.timesteps, event.time)"), "S1.slot-is-bisect-left")
+M("C04", "M7-truncated-seconds", (TM, "                sec_since_timestep = (event.time - timestep_previous).total_seconds()", "                sec_since_timestep = (event.time - timestep_previous) // timedelta(seconds=1)"), "S5")
+M("C04", "M8-days-seconds", (TM, "                sec_since_timestep = (event.time - timestep_previous).total_seconds()", "                elapsed = event.time - timestep_previous\n                sec_since_timestep = elapsed.days * 86400 + elapsed.seconds"), "S5")
+M("C04", "M9-vars-not-dir", (EV, "        for attr_name in dir(self.__class__):", "        for attr_name in vars(self.__class__):"), "S2.subscriptions-cover-mro")
+M("C04", "M10-per-batch-sort", [(TM, "        self.events.extend(events)", "        self.events.extend(sorted(events))"), (TM, "        events = sorted(e for e in self.events if e.time <= self.timesteps[-1])", "        events = [e for e in self.events if e.time <= self.timesteps[-1]]"), (TM, "        for event in sorted(events):", "        for event in events:")], "S4.global-stable-sort")
+M("C04", "M11-grid-filter-strict", [(TM, "        events = sorted(e for e in self.events if e.time <= self.timesteps[-1])", "        events = sorted(e for e in self.events if e.time < self.timesteps[-1])"), (TM, "            if event.time <= self.timesteps[-1]:", "            if event.time < self.timesteps[-1]:")], "S3.after-grid-filter")
+M("C04", "M12-markov-history", (TM, "        if (self._step_nr == 1) and (not self._markov_reset):", "        if (self._step_nr == 1):"), "S9.history-on-first-step-only")
+M("C04", "M13-latency-bound-gt", (TM, "        if latency >= self._min_timesteps_diff():", "        if latency > self._min_timesteps_diff():"), "S6.latency-below-min-gap")
+M("C04", "M14-prefetch-first", (EN, "        for event in self._events_nonlatent:\n            self.notify(event)\n        try:\n            self._events_latent, self._events_nonlatent = self._transmitter._next()\n        except StopIteration:\n            self._done = True", "        events = self._events_nonlatent\n        try:\n            self._events_latent, self._events_nonlatent = self._transmitter._next()\n        except StopIteration:\n            self._done = True\n        for event in events:\n            self.notify(event)"), "S2")
+M("C04", "M15-pair-swapped", (EN, "            self._events_latent, self._events_nonlatent = self._transmitter._next()\n        except StopIteration:", "            self._events_nonlatent, self._events_latent = self._transmitter._next()\n        except StopIteration:"), "S7.batch-order-latent-first")
+M("C04", "M16-history-no-upper-bound", (TM, "                if origin <= t <= self._current_time\n            )\n            events_latent = list()", "                if origin <= t\n            )\n            events_latent = list()"), "S9.history-upper-bound")
+M("C04", "M17-callback-twice", (EV, "                callback(self)\n                observer.last_update = self.time", "                callback(self)\n                if observer._nr_callbacks == 0:\n                    callback(self)\n                observer.last_update = self.time"), "S2")
+M("C04", "M18-previous-timestep-wrong", (TM, "                index_previous = index - 1\n", "                index_previous = index - 2\n"), "S5")
+M("C04", "M19-pointer-double", (TM, "        self._step_nr += 1\n", "        self._step_nr += 2\n"), "S2.step-pointer-advances-once")
+M("C04", "M20-grid-not-deduped", (TM, "        self.timesteps = sorted(set(self.timesteps))", "        self.timesteps = sorted(self.timesteps)"), "S1.grid-sorted-unique")
+M("C04", "M21-newdate-stamped-now", (EN, "            self.notify(EventNewDate(self._last_event.time, self.broker))", "            self.notify(EventNewDate(event.time, self.broker))"), "S8.newdate-stamp")
+M("C04", "M22-last-event-before-dispatch", (EN, "        event.notify(self._observers)\n        self._last_event = event", "        self._last_event = event\n        event.notify(self._observers)"), "S8.last-event-after-dispatch")
+M("C04", "M23-history-desc", (TM, "            timesteps = sorted(\n                t for t in set(self._partition_latent) | set(self._partition_nonlatent)\n                if origin <= t <= self._current_time\n            )", "            timesteps = [\n                t for t in set(self._partition_latent) | set(self._partition_nonlatent)\n                if origin <= t <= self._current_time\n            ]"), "S7.history-batch-ordered")
+E("C04", "E1-else-first", (TM, "                if sec_since_timestep <= latency:\n                    self._partition_latent[timestep].append(event)\n                else:\n                    self._partition_nonlatent[timestep].append(event)", "                if sec_since_timestep > latency:\n                    self._partition_nonlatent[timestep].append(event)\n                else:\n                    self._partition_latent[timestep].append(event)"))
+E("C04", "E2-sort-in-place", (TM, "        events = sorted(e for e in self.events if e.time <= self.timesteps[-1])", "        events = sorted([e for e in self.events if e.time <= self.timesteps[-1]])"))
+E("C04", "E3-iterate-copy", (EN, "        for event in self._events_latent:\n            self.notify(event)\n        self._events_latent = list()", "        for event in list(self._events_latent):\n            self.notify(event)\n        self._events_latent = []"))
